@@ -374,6 +374,8 @@ class LogicalType(type):  # noqa
                     # like NormalFloat = AllOf(Float, Not(AbnormalFloat))('3.3')
                     value = context.transformer(value, con)
                 except Exception as e:
+                    if not isinstance(e, exc.ParseError):
+                        e = exc.ParseError(type=con, value=value, origin_exc=e)
                     context.handle_error(e)
                     break
 
